@@ -423,7 +423,7 @@ __CPROVER_assigns(*self, E, EL, G_EV, G_HES, G_UBYTE, __CPROVER_object_whole(g_t
 #define PCA_BYTE   (RAN && g_old.state == CAT_STATE_PARSE_COMMAND_ARGS && E.rd_avail)
 #define PCA_TESTQ  (g_old.length == 0 && E.rd_ch == '?' && (g_old.cmd->test != NULL || p_has_vars(g_old.cmd)) && !g_old.cmd->implicit_write)
 /* [C06:collect-fits]    */ __CPROVER_ensures((PCA_BYTE && E.rd_ch != '\n' && E.rd_ch != '\r' && !PCA_TESTQ && g_old.length + 1 < H_CAPA) ==> (self->state == CAT_STATE_PARSE_COMMAND_ARGS && self->length == g_old.length + 1 && ABUFP[g_old.length] == E.rd_ch && ABUFP[self->length] == 0 && p_abuf_prefix_unchanged(g_old.length)))
-/* [C01,C06:collect-overlong] */ __CPROVER_ensures((PCA_BYTE && E.rd_ch != '\n' && E.rd_ch != '\r' && !PCA_TESTQ && g_old.length + 1 >= H_CAPA) ==> self->state == CAT_STATE_ERROR)
+/* [C01,C06,C20:collect-overlong] */ __CPROVER_ensures((PCA_BYTE && E.rd_ch != '\n' && E.rd_ch != '\r' && !PCA_TESTQ && g_old.length + 1 >= H_CAPA) ==> self->state == CAT_STATE_ERROR)
 /* [C06,C20:collect-cr]  */ __CPROVER_ensures((PCA_BYTE && E.rd_ch == '\r') ==> (self->state == CAT_STATE_PARSE_COMMAND_ARGS && self->length == g_old.length && p_abuf_unchanged() && self->cr_flag != 0))
 /* [C02:test-suffix]     */ __CPROVER_ensures((PCA_BYTE && E.rd_ch != '\n' && E.rd_ch != '\r') ==> ((self->state == CAT_STATE_WAIT_TEST_ACKNOWLEDGE) == PCA_TESTQ && (PCA_TESTQ ==> self->cmd_type == CAT_CMD_TYPE_TEST)))
 /* [C06:write-handler-args] */ __CPROVER_ensures((AT_HCALLS == 1 && E.h_kind == E_KIND_WRITE) ==> (E.h_data == (const uint8_t *)h_buf && E.h_size == g_old.length && E.h_args == g_old.index && E.h_nul_ok))
